@@ -123,6 +123,7 @@ type harness struct {
 	reader  int64
 	readerIdle bool // the reader goroutine is blocked in ReadJSON
 	slowAsyncClose bool
+	follow  sync.WaitGroup
 	rng     *rand.Rand
 	rngMu   sync.Mutex
 	perturb float64
@@ -226,7 +227,28 @@ func (h *harness) change(by string) int {
 	for _, r := range targets {
 		r.Invalidate()
 	}
+	// A subscription whose resolver fails retries with a doubling delay for as long as the data stays at
+	// a failing version; keep such periods short so that scenarios settle quickly.
+	if v < MaxVer && Table[v].Flaky {
+		h.follow.Add(1)
+		go func() {
+			defer h.follow.Done()
+			time.Sleep(time.Duration(300+h.rnd(600)) * time.Microsecond)
+			h.mu.Lock()
+			still := Table[h.version].Flaky
+			h.mu.Unlock()
+			if still {
+				h.change("follow")
+			}
+		}()
+	}
 	return v
+}
+
+func (h *harness) rnd(n int) int {
+	h.rngMu.Lock()
+	defer h.rngMu.Unlock()
+	return h.rng.Intn(n)
 }
 
 func (h *harness) schema() *graphql.Schema {
@@ -447,6 +469,7 @@ func runScenario(seed int64, scn int, maxSubs int) ([]Event, bool) {
 		s.in <- &inMsg{ID: m.id, Type: m.typ, Message: msg, q: m.q}
 	}
 	wg.Wait()
+	h.follow.Wait()
 	settled := h.waitGoroutines(base+1, true) // only the reader is left, blocked in ReadJSON
 	// a subscription that keeps failing retries with back-off: make sure the data is not at a failing version
 	h.mu.Lock()
@@ -454,6 +477,7 @@ func runScenario(seed int64, scn int, maxSubs int) ([]Event, bool) {
 	h.mu.Unlock()
 	if flaky {
 		h.change("env")
+		h.follow.Wait()
 		settled = h.waitGoroutines(base+1, true)
 	}
 	h.mu.Lock()
@@ -568,7 +592,11 @@ func fold(raw []Raw, scn int) []Event {
 		case "read":
 			emit(Event{Ev: "run.read", Id: r.Id, V: r.V})
 		case "data":
-			emit(Event{Ev: "data", V: r.V, Kind: r.Kind})
+			k := r.Kind
+			if k == "follow" {
+				k = "env"
+			}
+			emit(Event{Ev: "data", V: r.V, Kind: k})
 		case "sub.done":
 			e := Event{Ev: "sub.ok", Id: r.Id}
 			if w := lastWrite[r.gid]; w != nil && w.Id == r.Id && w.Typ == "update" {
@@ -675,7 +703,11 @@ func Main(args []string) error {
 	nev := 0
 	cov := map[string]int{}
 	for i := 0; i < *scenarios; i++ {
+		t0 := time.Now()
 		evs, ok := runScenario(*seed*104729+int64(i), i+1, *maxSubs)
+		if d := time.Since(t0); d > 200*time.Millisecond && os.Getenv("VH_DEBUG") != "" {
+			fmt.Fprintf(os.Stderr, "slow scenario %d: %v (%d events)\n", i+1, d, len(evs))
+		}
 		w.Write(Event{Ev: "reset", Scn: i + 1, Ids: []string{}, Msg: tj.T{K: "n"}})
 		for _, e := range evs {
 			w.Write(e)
